@@ -38,12 +38,16 @@ def digitsExact : Num → Bool
 
 /-- The classes of numbers on the `Text('f', -1)` route (not whole, not an exact float64), for the
 harness' distribution:
-* `exact-text`        — `digitsExact`: proved to come back numerically identical and Equal;
-* `prec512-short-text` — held at 512 bits with a text shorter than the exact expansion
-                         (`ParseNumberVal("0.1")`): searched, not proved;
+* `exact-text`        — `digitsExact`: proved to come back numerically identical and Equal
+                         (dyadic rationals with a short expansion: 0.625, 1/8 + 2^-70, …);
+* `long`              — more than 248 fractional digits or a mantissa wider than 512 bits: every
+                         512-bit approximation of a decimal fraction (`ParseNumberVal("0.1")` is
+                         m·2^-515: 515 fractional digits, text "0.1"): searched, not proved;
+* `prec512-short-text` — held at 512 bits or more, at most 248 fractional digits, text shorter than
+                         the exact expansion (rare): searched, not proved;
 * `low-prec-short-text` — held at fewer than 512 bits with a shortened text: comes back as ANOTHER
-                         number (finding decimal-nonstandard-precision);
-* `long`              — more than 248 fractional digits or a mantissa wider than 512 bits. -/
+                         number (Equal as a known number; as a bound: finding
+                         decimal-nonstandard-precision). -/
 def textRouteClass (x : Num) : String :=
   match route x with
   | .str _ =>
